@@ -1,0 +1,105 @@
+// Copyright 2025 The Go Authors. All rights reserved.
+// Use of this source code is governed by a BSD-style
+// license that can be found in the LICENSE file.
+
+//go:build verif
+
+package html
+
+// Contracts, spec functions and lemma harnesses for the deductive verifier in /verif (govc).
+// This file is compiled only with -tags verif; it adds no behaviour to the package.
+
+// ---------------------------------------------------------------------------
+// Tokenizer buffer management (property C39, token.go).
+
+// tokOK(z): the raw span of the current token lies inside the buffer.
+//
+//@ pure
+func tokOK(z *Tokenizer) bool {
+	return 0 <= z.raw.start && z.raw.start <= z.raw.end && z.raw.end <= len(z.buf)
+}
+
+//@ func readAtLeastOneByte(r, b) (n, err)
+//@   requires r != nil
+//@   ensures 0 <= n && n <= len(b) && n <= cap(b)
+//@   ensures n == 0 ==> err != nil
+//@   modifies elems(b)
+//@   loop 1 invariant 0 <= i && i <= 100
+//@   loop 1 modifies elems(b)
+
+// readByte. The pending window W = buf[raw.start:len(buf)] (current token followed by buffered
+// lookahead) never shrinks; compaction/reallocation happens only when there is no lookahead left.
+// The token grows by exactly one byte, the byte returned, or z.err is set; a read error leaves the
+// token as it was. With a limit (maxBuf > 0) a successful return means the token is still shorter
+// than maxBuf: reaching the limit sets ErrBufferExceeded. Assumed (partial nopanic:makelen): the
+// reallocation make([]byte, d, 2*cap(buf)) does not exceed the allocation limit (a buffer of 2^62
+// bytes cannot exist; the bound is not inductive because the capacity doubles). Not proved: the
+// contents of W across a refill (the engine havocs the whole backing array at io.Reader.Read) and
+// the shift of the data/attr spans (loop over z.attr).
+//
+//@ func (*Tokenizer).readByte(z) (c)
+//@   requires z != nil && z.r != nil && tokOK(z)
+//@   partial nopanic:makelen
+//@   ensures tokOK(z)
+//@   ensures z.err == nil ==> old(z.err) == nil
+//@   ensures z.raw.end - z.raw.start == old(z.raw.end - z.raw.start) + 1 || (z.err != nil && z.raw.end - z.raw.start == old(z.raw.end - z.raw.start))
+//@   ensures old(z.err) == nil && z.err == nil ==> z.raw.end - z.raw.start == old(z.raw.end - z.raw.start) + 1 && c == z.buf[z.raw.end - 1]
+//@   ensures old(z.err) == nil && z.err == nil && z.maxBuf > 0 ==> z.raw.end - z.raw.start < z.maxBuf
+//@   ensures old(z.err) == nil && z.maxBuf > 0 && z.raw.end - z.raw.start >= z.maxBuf && z.raw.end - z.raw.start == old(z.raw.end - z.raw.start) + 1 ==> z.err == ErrBufferExceeded
+//@   ensures len(z.buf) - z.raw.start >= old(len(z.buf) - z.raw.start)
+//@   ensures samebase(z.buf, old(z.buf)) || fresh(z.buf)
+//@   ensures z.maxBuf == old(z.maxBuf) && z.r == old(z.r)
+//@   modifies z.err, z.readErr, z.raw, z.buf, z.data, z.pendingAttr, elems(z.buf), spare(z.buf), elems(z.attr)
+//@   allocates
+//@   loop 1 invariant -1 <= rangeindex && rangeindex < len(z.attr)
+//@   loop 1 modifies elems(z.attr)
+
+// The small scanners. Common shape: they keep tokOK, never move raw.start, only set z.err (never
+// clear it), and every `z.raw.end--` un-reads a byte that was read by a successful readByte of the
+// same call (so raw.end never drops below raw.start: the nopanic/tokOK obligations).
+//
+//@ func (*Tokenizer).skipWhiteSpace(z)
+//@   requires z != nil && z.r != nil && tokOK(z)
+//@   ensures tokOK(z) && z.raw.end - z.raw.start >= old(z.raw.end - z.raw.start)
+//@   ensures old(z.err) != nil ==> z.err == old(z.err) && z.raw.end == old(z.raw.end) && z.raw.start == old(z.raw.start)
+//@   ensures z.err == nil ==> old(z.err) == nil
+//@   ensures z.err == nil && z.raw.end < len(z.buf) ==> !isHTMLSpace(z.buf[z.raw.end])
+//@   ensures (samebase(z.buf, old(z.buf)) || fresh(z.buf)) && z.maxBuf == old(z.maxBuf) && z.r == old(z.r)
+//@   modifies z.err, z.readErr, z.raw, z.buf, z.data, z.pendingAttr, elems(z.buf), spare(z.buf), elems(z.attr)
+//@   allocates
+//@   loop 1 invariant z.err == nil && tokOK(z) && z.raw.end - z.raw.start >= old(z.raw.end - z.raw.start) && z.maxBuf == old(z.maxBuf) && z.r == old(z.r) && (samebase(z.buf, old(z.buf)) || fresh(z.buf))
+//@   loop 1 modifies *z, elems(z.buf), elems(z.attr)
+//@
+//@ func (*Tokenizer).readUntilCloseAngle(z)
+//@   requires z != nil && z.r != nil && tokOK(z) && z.err == nil
+//@   ensures tokOK(z) && z.raw.end - z.raw.start >= old(z.raw.end - z.raw.start)
+//@   ensures z.raw.start <= z.data.end && z.data.end <= z.raw.end
+//@   ensures z.err == nil ==> z.data.end == z.raw.end - 1 && z.buf[z.raw.end - 1] == '>'
+//@   ensures z.err != nil ==> z.data.end == z.raw.end
+//@   ensures (samebase(z.buf, old(z.buf)) || fresh(z.buf)) && z.maxBuf == old(z.maxBuf) && z.r == old(z.r)
+//@   modifies z.err, z.readErr, z.raw, z.buf, z.data, z.pendingAttr, elems(z.buf), spare(z.buf), elems(z.attr)
+//@   allocates
+//@   loop 1 invariant z.err == nil && tokOK(z) && z.raw.end - z.raw.start >= old(z.raw.end - z.raw.start) && z.maxBuf == old(z.maxBuf) && z.r == old(z.r) && (samebase(z.buf, old(z.buf)) || fresh(z.buf))
+//@   loop 1 modifies *z, elems(z.buf), elems(z.attr)
+//@
+//@ func (*Tokenizer).readRawEndTag(z) (found)
+//@   requires z != nil && z.r != nil && tokOK(z) && z.err == nil && z.raw.end - z.raw.start >= 2
+//@   ensures tokOK(z)
+//@   ensures found ==> z.err == nil && z.raw.end - z.raw.start == old(z.raw.end - z.raw.start) - 2
+//@   ensures !found && z.err == nil ==> z.raw.end - z.raw.start >= old(z.raw.end - z.raw.start)
+//@   ensures (samebase(z.buf, old(z.buf)) || fresh(z.buf)) && z.maxBuf == old(z.maxBuf) && z.r == old(z.r) && z.rawTag == old(z.rawTag)
+//@   modifies z.err, z.readErr, z.raw, z.buf, z.data, z.pendingAttr, elems(z.buf), spare(z.buf), elems(z.attr)
+//@   allocates
+//@   loop 1 invariant 0 <= i && i <= len(z.rawTag) && z.err == nil && tokOK(z) && z.raw.end - z.raw.start == old(z.raw.end - z.raw.start) + i && z.maxBuf == old(z.maxBuf) && z.r == old(z.r) && z.rawTag == old(z.rawTag) && (samebase(z.buf, old(z.buf)) || fresh(z.buf))
+//@   loop 1 modifies *z, elems(z.buf), elems(z.attr)
+//@
+//@ func (*Tokenizer).Raw(z) (r)
+//@   requires z != nil && tokOK(z)
+//@   ensures samebase(r, z.buf) && startoff(r) == startoff(z.buf) + z.raw.start && len(r) == z.raw.end - z.raw.start
+//@
+//@ func (*Tokenizer).Buffered(z) (r)
+//@   requires z != nil && tokOK(z)
+//@   ensures samebase(r, z.buf) && startoff(r) == startoff(z.buf) + z.raw.end && endoff(r) == endoff(z.buf)
+
+//@ pure
+func isHTMLSpace(c byte) bool { return c == ' ' || c == '\n' || c == '\r' || c == '\t' || c == '\f' }
